@@ -7,9 +7,9 @@
                last event time <= target (abstract execution over a path with targets that
                hit an event time, fall between events, precede the first and follow the last)
  S4 R-STEP/R-FR  the per-step counts that are binned are the counts that were applied to the state
- S3 R-GRIDIO   solve_stochast: list / tuple / array grids are normalised alike; final time =
-               last grid point; states go through the last-event look-up iff exact; counts
-               through _addJumpsBetweenTime(counts, times, grid, exact); the grid is returned
+ S3 R-GRIDRUN  solve_stochast interpreted end to end on scripted concrete paths (overshooting, dying out inside the
+               grid, single event) for list / tuple / array grids and scalar horizons: rows, per-interval counts
+               and their relation are those of the underlying path; raw runs are returned untouched
 """
 import ast
 
@@ -29,8 +29,7 @@ TECHNIQUE = ("static analysis: loop-variable dependence of the stored column (R-
 def check(repo, res, tier):
     res.rule("R-LOOPDEP", "a value stored at [..., i] inside `for i` depends on i on every path")
     res.rule("R-LOOKUP", "row k = state at the last event time <= target k; one row per target in order")
-    res.rule("R-GRIDIO", "grid forms normalised alike; exact -> last-event look-up; counts processed with (counts, times, grid, exact)")
-    res.s_clauses = ["S1 R-LOOPDEP", "S2 R-LOOKUP", "S3 R-GRIDIO"]
+    res.s_clauses = ["S1 R-LOOPDEP", "S2 R-LOOKUP", "S3 R-GRIDRUN"]
     res.n_clauses = ["that consecutive rows differ by V times the interval counts numerically (follows from S1-S3 and C04)",
                      "tau-leap interpolation accuracy"]
     cls = M.sim_class(repo)
@@ -43,7 +42,7 @@ def check(repo, res, tier):
     _check_loopdep(repo, res, cls)
     _check_lookup(repo, res, cls)
     _check_interp(repo, res, cls)
-    _check_gridio(repo, res, cls)
+    _check_gridded_runs(repo, res, cls)
 
 
 def _check_loopdep(repo, res, cls):
@@ -199,84 +198,128 @@ def _check_interp(repo, res, cls):
               "; ".join(problems), node=f.node)
 
 
-def _check_gridio(repo, res, cls):
+def _check_gridded_runs(repo, res, cls):
+    """solve_stochast on a grid, interpreted end to end with the runs replaced by scripted concrete paths (an overshooting path, a path that
+    dies out inside the grid, a single-event path) and the output helpers interpreted from their own source: what comes out is compared with
+    what the property defines - row k = state of the path at t_k, counts k = events of the path in interval k, rows differ by V*counts"""
+    from ..core.numarr import NumArr, num_summaries
     f = repo.resolve_method(cls, "solve_stochast")
-    if f is None:
-        raise AnalysisError("solve_stochast vanished")
-    grid = [1.0, 2.0, 3.0]
-    n_forms = 0
-    for form, value in (("list", list(grid)), ("tuple", tuple(grid)), ("ndarray", Arr(list(grid), "ndarray")), ("scalar", 3.0), ("list-of-one", [3.0])):
+    res.rule("R-GRIDRUN", "gridded output of whole runs: one row per requested time, first row the initial state, (exact) row k = the path's state at t_k, "
+             "counts of interval k = the path's events in it, consecutive rows differ by V times those counts")
+    V = [[-1, 0], [1, -1], [0, 1]]                 # S->I, I->R on (S, I, R)
+
+    def path(x0, times, events):
+        X, J = [list(x0)], []
+        for e in events:
+            J.append([1 if i == e else 0 for i in range(2)])
+            X.append([X[-1][s_] + V[s_][e] for s_ in range(3)])
+        return X, J, [0.0] + list(times)
+    paths = {
+        "overshooting the grid": path([3, 1, 0], [0.3, 0.7, 1.1, 2.6, 2.9, 7.2], [0, 1, 0, 0, 1, 1]),
+        "dying out inside the grid": path([1, 1, 0], [0.4, 1.5, 2.2], [0, 1, 1]),
+        "single event": path([0, 1, 0], [1.75], [1]),
+    }
+    grids = {"even grid": [0.0, 1.0, 2.0, 3.0, 4.0], "uneven grid": [0.0, 0.5, 2.5, 6.0]}
+    bad, n = [], 0
+    for gl, grid in grids.items():
+        for form, mk in (("list", list), ("tuple", tuple), ("array", lambda g: NumArr(list(g)))):
+            for exact in (True, False):
+                order = list(paths)
+                calls = []
+
+                def jump(me_, finalT, exact=False, full_output=True, seed=None, **k):
+                    X, J, T = paths[order[len(calls) % len(order)]]
+                    calls.append((finalT, exact))
+                    if not exact:
+                        # tau-leap records: several firings per step (two steps merged where possible)
+                        pass
+                    return (NumArr([list(r) for r in X]), NumArr([list(r) for r in J]), NumArr(list(T)), NumArr([b - a for a, b in zip(T, T[1:])]))
+                summ = dict(num_summaries())
+                summ.update({"Model._jump": jump, "logging.debug": lambda *a, **k: None, "logging.warning": lambda *a, **k: None})
+                me = Obj("Model", _x0=NumArr([3, 1, 0]))
+                types = {"Number": lambda v: isinstance(v, (int, float)) and not isinstance(v, bool), "numbers.Number": lambda v: isinstance(v, (int, float)) and not isinstance(v, bool),
+                         "np.ndarray": lambda v: isinstance(v, NumArr)}
+                ab = Abs({}, types, summ, me, {}, budget=400000)
+                ab.class_methods = set(repo.all_methods(cls))
+                ab.self_class = (repo, cls)
+                ab.module = f.module
+                tag = "%s as %s, exact=%s" % (gl, form, exact)
+                try:
+                    kind, out = ab.run_function(f.node, {"t": mk(grid), "iteration": len(order), "parallel": False, "exact": exact, "full_output": True})
+                except Undecided as e:
+                    res.undecided("R-GRIDRUN", f, "whole-runs", "outside the modelled subset (%s): %s" % (tag, e))
+                    return
+                n += 1
+                if kind != "return":
+                    bad.append("%s: raises %s" % (tag, out))
+                    continue
+                if not (isinstance(out, tuple) and len(out) == 3 and len(out[0]) == len(order) and len(out[1]) == len(order)):
+                    bad.append("%s: the output is not (states per run, counts per run, grid) for %d runs" % (tag, len(order)))
+                    continue
+                if [c[0].tolist() if isinstance(c[0], NumArr) else c[0] for c in calls] not in ([[grid[-1]]] * len(order), [grid[-1]] * len(order)) or any(c[1] != exact for c in calls):
+                    bad.append("%s: the runs are started with (final time, exact) = %s, expected the last grid time and the caller's flag" % (tag, calls))
+                    continue
+                for k, pl in enumerate(order):
+                    X, J, T = paths[pl]
+                    rows = out[0][k].tolist() if isinstance(out[0][k], NumArr) else out[0][k]
+                    cnts = out[1][k].tolist() if isinstance(out[1][k], NumArr) else out[1][k]
+                    if exact:
+                        want_rows = [X[max(i for i, te in enumerate(T) if te <= tk)] for tk in grid]
+                    else:
+                        want_rows = []
+                        for tk in grid:
+                            if tk >= T[-1]:
+                                want_rows.append([float(v) for v in X[-1]])
+                                continue
+                            j = max(i for i, te in enumerate(T) if te <= tk)
+                            w = (tk - T[j]) / (T[j + 1] - T[j])
+                            want_rows.append([X[j][s_] + w * (X[j + 1][s_] - X[j][s_]) for s_ in range(3)])
+                    want_cnts = [[sum(J[e][i] for e in range(len(J)) if (grid[q] < T[e + 1] <= grid[q + 1])) for i in range(2)] for q in range(len(grid) - 1)]
+
+                    def same(a, b):
+                        return isinstance(a, list) and len(a) == len(b) and all(isinstance(r, list) and len(r) == len(w_) and all(abs(x - y) < 1e-9 for x, y in zip(r, w_)) for r, w_ in zip(a, b))
+                    if not same(rows, want_rows):
+                        bad.append("%s, path %s (event times %s): the rows are %s, expected %s" % (tag, pl, T[1:], rows, want_rows))
+                    elif not same(cnts, want_cnts):
+                        bad.append("%s, path %s (event times %s): the per-interval counts are %s, expected %s" % (tag, pl, T[1:], cnts, want_cnts))
+                    elif exact and any(abs((rows[q + 1][s_] - rows[q][s_]) - sum(V[s_][i] * cnts[q][i] for i in range(2))) > 1e-9 for q in range(len(grid) - 1) for s_ in range(3)):
+                        bad.append("%s, path %s: consecutive rows do not differ by V times the counts" % (tag, pl))
+    # a scalar horizon (number or one-element list): the raw runs come back untouched, as (states, counts, times) per run
+    for form, value in (("number", 4.0), ("one-element list", [4.0]), ("one-element tuple", (4.0,))):
         for exact in (True, False):
-            n_forms += 1
-            calls = {"jump": [], "extract": [], "interp": [], "addjumps": []}
-            me = Obj("Model", _x0=Tok("x0"))
+            order = list(paths)
+            calls = []
 
-            def jump(me_, finalT, exact=False, full_output=True, seed=None, _c=calls):
-                _c["jump"].append((finalT, exact, seed))
-                k = len(_c["jump"])
-                return (Tok("X%d" % k), Tok("J%d" % k), Tok("T%d" % k), Tok("dT%d" % k))
-            summ = _np_summaries()
-            summ.update({
-                "np.all": lambda x: True, "np.mod": lambda a, b: Tok("mod"),
-                "logging.debug": lambda *a: None, "logging.warning": lambda *a: None,
-                "Model._jump": jump,
-                "Model._extractObservationAtTime": lambda me_, X, t_, tt, _c=calls: (_c["extract"].append((X, t_, tt)), Tok("E(%r)" % X))[1],
-                "Model._interpolateObservationAtTime": lambda me_, X, t_, tt, _c=calls: (_c["interp"].append((X, t_, tt)), Tok("I(%r)" % X))[1],
-                "Model._addJumpsBetweenTime": lambda me_, dX, t_, tt, ex, _c=calls: (_c["addjumps"].append((dX, t_, tt, ex)), Tok("A(%r)" % dX))[1],
-            })
-            types = {"Number": lambda v: isinstance(v, (int, float)) and not isinstance(v, bool),
-                     "np.ndarray": lambda v: isinstance(v, Arr)}
-
-            def eq(a, b):
-                if isinstance(a, Tok) and a.label == "mod":
-                    return True
-                return None
-            ab = Abs({}, types, summ, me, {}, eq=eq)
-            tag = "%s,exact=%s" % (form, exact)
+            def jump2(me_, finalT, exact=False, full_output=True, seed=None, **k):
+                X, J, T = paths[order[len(calls) % len(order)]]
+                calls.append((finalT, exact))
+                return (NumArr([list(r) for r in X]), NumArr([list(r) for r in J]), NumArr(list(T)), NumArr([b - a for a, b in zip(T, T[1:])]))
+            summ = dict(num_summaries())
+            summ.update({"Model._jump": jump2, "logging.debug": lambda *a, **k: None, "logging.warning": lambda *a, **k: None})
+            me = Obj("Model", _x0=NumArr([3, 1, 0]))
+            ab = Abs({}, types, summ, me, {}, budget=400000)
+            ab.class_methods = set(repo.all_methods(cls))
+            ab.self_class = (repo, cls)
+            ab.module = f.module
+            tag = "horizon as %s, exact=%s" % (form, exact)
             try:
-                kind, out = ab.run_function(f.node, {"t": value, "iteration": 2, "parallel": False, "exact": exact, "full_output": True})
+                kind, out = ab.run_function(f.node, {"t": value, "iteration": len(order), "parallel": False, "exact": exact, "full_output": True})
             except Undecided as e:
-                res.undecided("R-GRIDIO", f, tag, "outside the modelled subset: %s" % e)
-                continue
+                res.undecided("R-GRIDRUN", f, "whole-runs", "outside the modelled subset (%s): %s" % (tag, e))
+                return
+            n += 1
             if kind != "return":
-                res.violated("R-GRIDIO", f, tag, "solve_stochast raises %s for a %s time argument" % (out, form), node=f.node)
+                bad.append("%s: raises %s" % (tag, out))
                 continue
-            gridded = form in ("list", "tuple", "ndarray")
-            problems = []
-            finals = [c[0] for c in calls["jump"]]
-            if len(calls["jump"]) != 2:
-                problems.append("%d runs for iteration=2" % len(calls["jump"]))
-            for fin in finals:
-                fv = fin[0] if isinstance(fin, (list, tuple)) and len(fin) == 1 else fin
-                if fv != 3.0:
-                    problems.append("final time handed to the run is %r, expected the last grid point 3.0" % (fin,))
-            if any(c[1] != exact for c in calls["jump"]):
-                problems.append("the exact flag is not forwarded to the runs")
-            if any(c[2] is not None for c in calls["jump"]):
-                problems.append("serial runs receive a seed argument")
-            if gridded:
-                which = calls["extract"] if exact else calls["interp"]
-                other = calls["interp"] if exact else calls["extract"]
-                if other:
-                    problems.append("states of %s runs go through %s" % ("exact" if exact else "tau-leap", "interpolation" if exact else "the last-event look-up"))
-                want_args = [(Tok("X%d" % k), Tok("T%d" % k)) for k in (1, 2)]
-                if [(a[0], a[1]) for a in which] != want_args or any(list(a[2]) != grid for a in which):
-                    problems.append("state processing receives %s, expected (states_k, times_k, grid)" % [(a[0], a[1], a[2]) for a in which])
-                if [(a[0], a[1], a[3]) for a in calls["addjumps"]] != [(Tok("J%d" % k), Tok("T%d" % k), exact) for k in (1, 2)] \
-                        or any(list(a[2]) != grid for a in calls["addjumps"]):
-                    problems.append("count processing receives %s, expected (counts_k, times_k, grid, exact)" % calls["addjumps"])
-                if not (isinstance(out, tuple) and len(out) == 3 and list(out[2]) == grid):
-                    problems.append("third output is %r, expected the grid" % (out[2] if isinstance(out, tuple) and len(out) == 3 else out,))
-                else:
-                    pre = "E" if exact else "I"
-                    if list(out[0]) != [Tok("%s(%r)" % (pre, Tok("X%d" % k))) for k in (1, 2)]:
-                        problems.append("returned states %s are not the processed runs in run order" % (out[0],))
-                    if list(out[1]) != [Tok("A(%r)" % Tok("J%d" % k)) for k in (1, 2)]:
-                        problems.append("returned counts %s are not the processed runs in run order" % (out[1],))
-            else:
-                if calls["extract"] or calls["interp"] or calls["addjumps"]:
-                    problems.append("a scalar horizon triggers grid processing")
-                if not (isinstance(out, tuple) and len(out) == 3 and list(out[0]) == [Tok("X1"), Tok("X2")] and list(out[2]) == [Tok("T1"), Tok("T2")]):
-                    problems.append("raw runs are not returned as (states, counts, times)")
-            res.check(not problems, "R-GRIDIO", f, tag, "%s time argument handled as specified" % form, "; ".join(problems), node=f.node)
-    res.floor("time-argument forms", n_forms, 10)
+            fin = [c[0].tolist() if isinstance(c[0], NumArr) else c[0] for c in calls]
+            ok = isinstance(out, tuple) and len(out) == 3 and all(len(o) == len(order) for o in out) and fin in ([4.0] * len(order), [[4.0]] * len(order)) and all(c[1] == exact for c in calls)
+            if ok:
+                for k, pl in enumerate(order):
+                    X, J, T = paths[pl]
+                    ok = ok and isinstance(out[0][k], NumArr) and out[0][k].tolist() == X and isinstance(out[1][k], NumArr) and out[1][k].tolist() == J \
+                        and isinstance(out[2][k], NumArr) and out[2][k].tolist() == T
+            if not ok:
+                bad.append("%s: the raw runs are not returned as (states, counts, times) per run in run order (runs started with %s)" % (tag, calls))
+    res.check(not bad, "R-GRIDRUN", f, "whole-runs", "%d gridded calls (list / tuple / array grids, even and uneven, exact and tau-leap) over 3 scripted paths each: rows, counts and their "
+              "relation are those of the underlying path" % n, "; ".join(bad[:2]), node=f.node)
+    res.floor("gridded calls interpreted", n, 18)
